@@ -204,6 +204,7 @@ def _canon(j):
     return json.dumps(j, sort_keys=True, ensure_ascii=True)
 
 
+DECLARED_DICTS = [4096, 1 << 16, 1 << 26, 1 << 20, (1 << 20) + (1 << 19), 1 << 24, 1 << 27, (1 << 24) + (1 << 23), (1 << 26) + (1 << 25), 1 << 16, 1 << 22]
 RECONF = [[{"enable_parallel": False}], [{}], [{"buffer_size": 32768}], [{"max_workers": 2}, {"enable_caching": True}], [{"enable_streaming": False, "buffer_size": 8192}]]
 
 
@@ -237,6 +238,11 @@ def _work_all(case):
     if out["problems"] and case.get("bare_empty"):
         out["bare_empty_twin_problems"] = sorted({p["sym"] for p in _run(case, "", None, None, twin=True)["problems"]})
         return out
+    if out["problems"] and case.get("ddict"):
+        # control twin for the declared dictionary size alone
+        out["ddict_twin_problems"] = sorted({p["sym"] for p in _run(case, case.get("prefix", ""), case.get("dict"), blanks, updates=upd, repetitive=rep_, magic=mg, substreams=sub, ddict_off=True)["problems"]})
+        if not out["ddict_twin_problems"]:
+            return out
     if out["problems"] and mg:
         # control twin for the first member's name alone
         out["magic_twin_problems"] = sorted({p["sym"] for p in _run(case, case.get("prefix", ""), case.get("dict"), blanks, updates=upd, repetitive=rep_, magic="plain", substreams=sub)["problems"]})
@@ -256,19 +262,20 @@ def _work_all(case):
     if out["problems"] and blanks:
         # control twin for the empty members alone: the same archive with two bytes in each of them
         out["blank_twin_problems"] = sorted({p["sym"] for p in _run(case, case.get("prefix", ""), case.get("dict"), "filled", updates=upd, repetitive=rep_)["problems"]})
-    if out["problems"] and (case.get("prefix") or case.get("dict")) and out.get("blank_twin_problems", True):
+    if out["problems"] and (case.get("prefix") or case.get("dict") or case.get("ddict")) and out.get("blank_twin_problems", True):
         # control twin: the same members under plain names in a folder with the writer's default dictionary
         out["twin_problems"] = sorted({p["sym"] for p in _run(case, "", case.get("dict"), "filled" if blanks else None, twin=True, updates="renamed" if upd else None, repetitive="plain" if rep_ else None)["problems"]})
     return out
 
 
-def _run(case, prefix, dict_size, blanks=None, twin=False, updates=None, repetitive=None, magic=None, substreams=True):
+def _run(case, prefix, dict_size, blanks=None, twin=False, updates=None, repetitive=None, magic=None, substreams=True, ddict_off=False):
     from vlib import obs
     from sharepoint2text.parsing import router
     members, eligible, corrupted = build_members(case["seed"], case["n"], case.get("corrupt"), case.get("noise", True), prefix, dict_size, blanks, updates, repetitive, magic)
     layout = case["layout"]
     # an archive without any entry: 7-Zip writes the signature header alone ("bare"); the control twin carries an (empty) end header
-    data = archives.build(layout, members, dict_size=None if twin else dict_size, substreams=substreams, bare_empty=bool(case.get("bare_empty")) and not members and not twin)
+    data = archives.build(layout, members, dict_size=None if twin else dict_size, substreams=substreams, bare_empty=bool(case.get("bare_empty")) and not members and not twin,
+                          declared_dict=None if (twin or ddict_off) else case.get("ddict"))
     apath = "dir/arch" + archives.ext_of(layout)
     out = {"layout": layout, "n_members": len(members), "n_eligible": len(eligible), "size": len(data), "problems": [],
            "alt_exts": sorted(set(getattr(build_members, "alt_used", [])))}
@@ -385,6 +392,10 @@ def gen_cases(run):
                 # dictionary of the LZMA / LZMA2 folders: every size a property byte can express up to 128 KiB, in the thorough tier now and then up to 1 MiB (2^n and 3 * 2^n), for LZMA also arbitrary values
                 sizes = sevenz.lzma2_dict_sizes(10 if (run.quick or rng.random() < 0.9) else 16) + ([5000, 100000, 4097] if "lzma2" not in layout and "mixed" not in layout else [])
                 case["dict"] = rng.choice(sizes)
+            if layout.startswith("7z") and r % 3 == 2:
+                # dictionary size *declared* in the LZMA / LZMA2 coder properties of the data folders and of a compressed header (the encoder used a smaller
+                # one, as 7z -mx=9 does for small inputs): 4 KiB ... 128 MiB, 2^n and 2^n + 2^(n-1); the big ones on a part of the archives only
+                case["ddict"] = DECLARED_DICTS[cid % len(DECLARED_DICTS)]
             yield case
 
 
@@ -452,8 +463,14 @@ def main(run):
         if feat == "clean" and ob["problems"] and case.get("updates") and ob.get("update_twin_problems") == []:
             feat = "repeated-member-names"              # the twin with the newer versions under names of their own is clean
         twin_clean = not ob.get("twin_problems")         # the risky feature is only named when the control twin is judged clean
-        if feat == "clean" and ob["problems"] and twin_clean and (dclass or case.get("prefix")):
-            feat = "+".join(["clean"] + ([f"{dclass}-dictionary-far-matches"] if dclass else []) + (["dot-slash-prefixed-names"] if case.get("prefix") else []))
+        ddc = None
+        if case.get("ddict"):
+            ddc = "declared-dictionary-64MiB-or-more" if case["ddict"] >= 1 << 26 else "declared-dictionary-larger-than-used"
+            run.count("7z_archives_with_" + ddc.replace("-", "_"))
+        if ob["problems"] and ddc and ob.get("ddict_twin_problems") == [] and feat in ("clean", "corrupt-member"):
+            feat = ddc                  # the same archive declaring the dictionary the encoder used is clean
+        if feat == "clean" and ob["problems"] and twin_clean and (dclass or case.get("prefix") or ddc):
+            feat = "+".join(["clean"] + ([f"{dclass}-dictionary-far-matches"] if dclass else []) + (["dot-slash-prefixed-names"] if case.get("prefix") else []) + ([ddc] if ddc else []))
         for p in ob["problems"]:
             key = f"C10:{lc}:{feat}:{p['sym']}"
             if key not in seen:
@@ -470,7 +487,8 @@ def main(run):
     for fmt in ("pax", "gnu", "ustar"):     # every TAR header format must have been read back uncompressed (detection by the tar magic) and compressed
         run.require(f"tar_{fmt}_uncompressed_archives", sum(n for l, n in per_layout.items() if archives.family(l) == "tar" and archives.tar_format(l) == fmt), 5)
         run.require(f"tar_{fmt}_compressed_archives", sum(n for l, n in per_layout.items() if archives.family(l).startswith("tar.") and archives.tar_format(l) == fmt), 15)
-    for k, lo in (("7z_archives_without_entries_as_7zip_writes_them", run.n(8, 80)), ("archives_read_after_option_calls_that_leave_the_member_limit_alone", run.n(100, 1000)),
+    for k, lo in (("7z_archives_with_declared_dictionary_64MiB_or_more", run.n(20, 200)), ("7z_archives_with_declared_dictionary_larger_than_used", run.n(60, 600)),
+                  ("7z_archives_without_entries_as_7zip_writes_them", run.n(8, 80)), ("archives_read_after_option_calls_that_leave_the_member_limit_alone", run.n(100, 1000)),
                   ("tar_uncompressed_archives_whose_first_member_name_starts_with_BZ", run.n(6, 60)), ("other_archives_whose_first_member_name_starts_with_BZ", run.n(60, 600)),
                   ("7z_archives_without_substreams_info", run.n(20, 200)),
                   ("zip_deflated_archives_with_highly_compressible_member", run.n(10, 100)), ("7z_archives_with_highly_compressible_member", run.n(60, 600)),
